@@ -35,7 +35,16 @@ fn stub_validate(_s: &SpatioTemporalConstraints, epoch_delta: usize, dist: f32) 
 }
 
 fn any_attrs(max_idle: usize) -> VisualAttributes {
-    let opts = Arc::new(SortAttributesOptions::new(None, max_idle, kani::any(), SpatioTemporalConstraints::default(), 0.05, 0.00625));
+    // the constraint table is empty or holds one entry (validate itself is a recording stub in the
+    // compatible() harness, so the table's content only matters for code that inspects it directly)
+    let table = if kani::any() {
+        SpatioTemporalConstraints::default()
+    } else {
+        let lim: f32 = kani::any();
+        kani::assume(lim > 0.0 && lim.is_finite());
+        SpatioTemporalConstraints::default().constraints(&[(kani::any::<usize>(), lim)])
+    };
+    let opts = Arc::new(SortAttributesOptions::new(None, max_idle, kani::any(), table, 0.05, 0.00625));
     let mut a = VisualAttributes::new(opts);
     // two predicted boxes so that "the last one" is distinguishable from the first
     a.predicted_boxes.push_back(Universal2DBox::new(any_finite(), any_finite(), None, 1.0, 1.0));
@@ -52,7 +61,7 @@ fn any_attrs(max_idle: usize) -> VisualAttributes {
 #[kani::proof]
 #[kani::stub(Universal2DBox::dist_in_2r, stub_dist_in_2r)]
 #[kani::stub(SpatioTemporalConstraints::validate, stub_validate)]
-#[kani::unwind(6)]
+#[kani::unwind(8)]
 fn c20_visual_compatible() {
     let max_idle: usize = kani::any();
     let a = any_attrs(max_idle);
